@@ -432,7 +432,37 @@ func (t *labelTracer) funcSet(v ssa.Value) ([]*ssa.Function, bool) {
 		}
 		sl, ok := ia.X.(*ssa.Slice)
 		if !ok {
-			return nil, false
+			// the table kept in a package-level variable: the slice literal the package initialiser stores into it
+			// (and nothing else assigns it)
+			if ld, isLoad := ia.X.(*ssa.UnOp); isLoad && ld.Op == token.MUL {
+				if g, isGlobal := ld.X.(*ssa.Global); isGlobal {
+					if init := g.Pkg.Func("init"); init != nil {
+						stores := 0
+						for _, m := range g.Pkg.Members {
+							if f, ok := m.(*ssa.Function); ok {
+								for _, ff := range withClosures(f) {
+									for _, b := range ff.Blocks {
+										for _, ins := range b.Instrs {
+											if st, ok := ins.(*ssa.Store); ok && st.Addr == ssa.Value(g) {
+												stores++
+												if ff == init {
+													sl, _ = st.Val.(*ssa.Slice)
+												}
+											}
+										}
+									}
+								}
+							}
+						}
+						if stores != 1 {
+							sl = nil
+						}
+					}
+				}
+			}
+			if sl == nil {
+				return nil, false
+			}
 		}
 		var out []*ssa.Function
 		for _, e := range variadicArgs(sl) {
